@@ -95,7 +95,8 @@ def evaluate(sid: str, tier: str, inplace: bool) -> int:
         shutil.rmtree(scratch, ignore_errors=True)
         scratch.mkdir(parents=True)
         sh(["rsync", "-a", "/repo/src", "/repo/tests", str(scratch) + "/"])
-        rc, out = sh(["patch", "-p1", "-i", str(d / "patch.diff")], cwd=scratch)
+        pf = d / "patch_rebased.diff" if (d / "patch_rebased.diff").exists() else d / "patch.diff"  # re-based after repairs in /repo
+        rc, out = sh(["patch", "-p1", "-i", str(pf)], cwd=scratch)
         if rc:
             print("patch failed", out[-400:])
             return 2
